@@ -187,4 +187,26 @@ RECURSIVE ThickDrain(_, _)
 ThickDrain(t, acc) == LET r == ThickNext(t) IN IF r[1] THEN ThickDrain(r[3], Append(acc, r[2])) ELSE acc
 \* the point sequence of Styled<Line>::pixels() for stroke width w >= 1 (styled.rs:21-45)
 ThickSeq(s, e, w) == ThickDrain(ThickInit(s, e, w), <<>>)
+---------------------------------------------------------------------------
+(* TRANSCRIBED: polyline::Points (src/primitives/polyline/points.rs)          *)
+(* state [verts (the slice still to be visited), tr (translate), seg]         *)
+\* Points::new (points.rs:20-44)
+PolyInit(v, off) ==
+  IF Len(v) >= 2
+  THEN [verts |-> Tail(v), tr |-> off, seg |-> LPInit(PAdd(v[1], off), PAdd(v[2], off))]
+  ELSE [verts |-> <<>>, tr |-> <<0, 0>>, seg |-> LPEmpty]
+\* Iterator::next (points.rs:50-64) and the default Iterator::nth it calls on itself: <<some?, item, state'>>
+RECURSIVE PolyNext(_), PolyNth(_, _)
+PolyNext(it) ==
+  LET r == LPNext(it.seg) IN
+  IF r[1] THEN <<TRUE, r[2], [it EXCEPT !.seg = r[3]]>>                                  \* :51
+  ELSE IF Len(it.verts) < 2 THEN <<FALSE, <<>>, it>>                                     \* :54-55 `?`
+  ELSE PolyNth([it EXCEPT !.verts = Tail(it.verts),                                      \* :57
+                          !.seg = LPInit(PAdd(it.verts[1], it.tr), PAdd(it.verts[2], it.tr))], 1)   \* :59, :62
+PolyNth(it, k) ==
+  IF k = 0 THEN PolyNext(it)
+  ELSE LET r == PolyNext(it) IN IF r[1] THEN PolyNth(r[3], k - 1) ELSE r
+RECURSIVE PolyDrain(_, _)
+PolyDrain(it, acc) == LET r == PolyNext(it) IN IF r[1] THEN PolyDrain(r[3], Append(acc, r[2])) ELSE acc
+PolyPoints(v, off) == PolyDrain(PolyInit(v, off), <<>>)
 =============================================================================
